@@ -384,8 +384,13 @@ class Uri(six.text_type):
 
     def __eq__(self, other):
         if not isinstance(other, Uri):
-            return NotImplemented
+            # A plain string or a Bin with the same text is a different value
+            return False if isinstance(other, six.text_type) else NotImplemented
         return super(Uri, self).__eq__(other)
+
+    def __ne__(self, other):
+        result = self.__eq__(other)
+        return result if result is NotImplemented else not result
 
 
 class Bin(six.text_type):
@@ -401,8 +406,13 @@ class Bin(six.text_type):
 
     def __eq__(self, other):
         if not isinstance(other, Bin):
-            return NotImplemented
+            # A plain string or a Uri with the same text is a different value
+            return False if isinstance(other, six.text_type) else NotImplemented
         return super(Bin, self).__eq__(other)
+
+    def __ne__(self, other):
+        result = self.__eq__(other)
+        return result if result is NotImplemented else not result
 
 
 class XStr(object):
